@@ -36,6 +36,11 @@ M = {
  "C15-1": ("C15", "ContextTracker.__exit__ skips the restore when the saved state equals the scope's own enter value", "turn_memory_guarding_* called inside a scope that was entered when the setting already equalled its value"),
  "C15-2": ("C15", "_in_place_op nulls the target's gradient before the tracking-off early return", "tensor holding a gradient is the target of an in-place op inside no_autodiff: loses its gradient"),
  "C15-3": ("C15", "backward(): constant check before the tracking check", "backward() on a constant tensor of a tracked graph, called inside no_autodiff: clears the graph"),
+ "C01-2": ("C01", "BroadcastTo.backward_var does its own reduction with grad.reshape((-1,)+a.shape).sum(0)", "broadcast_to stretching an inner axis of length 1 that is preceded by a longer axis ((3,1)->(3,4)): wrong gradient values"),
+ "C05-4": ("C05", "_is_int_array_index only recognises ndarray / list index entries", "x[idx] = b with a repeated integer index spelled as a tuple / integer Tensor: the 'last write wins' masking of the value's gradient is skipped"),
+ "C06-4": ("C06", "_op no longer detaches a disconnected view before choosing the base of a new view of it", "view taken from a view that an earlier backward() released: wrong .base (the previous epoch's base), .grad reads None after the next backward"),
+ "C07-4": ("C07", "same code change as C06-4, found independently for C07", "repeating t = v[...]; (3*t).sum().backward() on a released view v: the gradient differs between iterations"),
+ "C09-3": ("C09", "clear_graph releases one write-lock of the tensor's array per live view child", "partial clear while another live graph still references the array: the array becomes writeable, a NumPy-level write changes the values L.backward() uses"),
  "C02-1": ("C02", "arccsch backward drops the abs(): -g/(x*sqrt(1+x^2))", "arccsch at negative inputs (sign of the gradient flips)"),
  "C02-2": ("C02", "arccos backward masks only x != 1 and uses sqrt((1-x)(1+x))", "arccos at x = -1: the documented zero convention is lost (inf/nan)"),
  "C02-3": ("C02", "Tensor.__pow__ fast path also for a 0-d Tensor exponent", "x ** y with y a non-constant 0-d tensor equal to 1 or 2: y receives no gradient"),
